@@ -215,7 +215,8 @@ Section Num.
     (** np.linspace(0, 1, n) *)
     Definition linspace01 (n : Z) : list R :=
       let step := ndiv N (n1 N) (nofZ N (n - 1)) in
-      map (fun i => if (i =? n - 1) && (1 <? n) then n1 N
+      map (fun i => if n <=? 1 then n0 N     (* num = 1: y * delta, no step *)
+                    else if i =? n - 1 then n1 N
                     else nadd N (nmul N (nofZ N i) step) (n0 N)) (seqZ n).
 
     Fixpoint has_dup (l : list R) : bool :=
